@@ -255,7 +255,12 @@ func c04Writes(c *core.Ctx, lay string, t reflect.Type, shape []int) {
 		}
 		// 3. the view's metadata is what it was (a write is not a reshape)
 		isDest := w.name == "Reuse-dest" || w.name == "Incr-dest"
-		if diff := metaBefore.Diff(gen.MetaOf(op.D)); diff != "" && !(isDest && (lay == gen.LC || lay == gen.LF)) { // what a reuse destination's own flags become is C07/C16's question
+		metaAfter := gen.MetaOf(op.D)
+		if isDest {
+			// what the order flag of a reuse destination becomes is pinned by the suite (Example_differingDataOrders: the operands'); everything else must stay
+			metaAfter.Order = metaBefore.Order
+		}
+		if diff := metaBefore.Diff(metaAfter); diff != "" && !(isDest && (lay == gen.LC || lay == gen.LF || lay == gen.LFconv)) {
 			c.Violation(core.Sig(w.name, lay, "view-metadata-changed"), caseKey, desc, "metadata unchanged", diff)
 			continue
 		}
